@@ -15,6 +15,12 @@ CHECKS = {
         bounds=dict(quick="boundary alphabets, product capped at 8000 per instruction (then the reduced alphabet)", thorough="wider alphabets, cap 60000 per instruction"),
         assumptions=["operand sizes above 1000 for allocation-sizing instructions are the resource envelope (C15)", "EXEC.CMD names resolve to the stubs in /verif/stubs (PATH is set by the supervisor)"],
     ),
+    "C02": dict(
+        families=lambda tier: [fam("programs", shards=12), fam("ladder")],
+        rule="every program tree up to S points over {TICK0, TICK1, TICK5 (harness instructions that advance a virtual clock), EXEC.Y, EXEC.DUP, NOOP, 1, lists} x eval_push_limit in -1..L+1 x growth_cap in {0,1,2,5} x eval_time_limit in {5000, 0, 3} ms (virtual clock) x 3 initial states; straight-line programs needing exactly n = 0..L+3 steps; GROW instructions that push k = 0..8 items onto EACH of the nine counted stacks in one step around every cap; run by PushInterpreter::run. Oracle: an independent accounting single-steps a second copy with the public step (after copying EXEC onto CODE as documented), records size (own sum of nine stack depths) and virtual time per step, derives from the property statement the admissible (outcome, executed steps) pairs (StepLimit only at limit..limit+1 steps, Time mandatory at the first check past the limit, Growth exactly at the first step growing by more than the cap, NoErrors only at quiescence; precedence free) and requires the run's outcome and bit-identical final state to be one of them; plus: step on an empty EXEC returns true and changes nothing; one labelled real-clock smoke case",
+        bounds=dict(quick="S=4 (800 programs), L=6", thorough="S=5, L=12"),
+        assumptions=["time-limit logic is decided on the virtual clock (hook H4); the real clock is only smoke-tested"],
+    ),
     "C03": dict(
         families=lambda tier: [fam("tokens", BOTH, shards=8, crumbs=True), fam("chars", BOTH, shards=4, crumbs=True), fam("ladder", BOTH, crumbs=True)],
         death_is_verdict=True,
@@ -47,9 +53,9 @@ CHECKS = {
         assumptions=["two names and two values per type"],
     ),
     "C08": dict(
-        families=lambda tier: [fam("unary", shards=4, crumbs=True), fam("binary", shards=12, crumbs=True), fam("api", shards=2)],
-        rule="all code trees up to S points over a 6-atom alphabet (int 1, 2, 11, float, name, instruction; 3 atoms for pairs): SIZE, EXTRACT, CAR, CDR, LENGTH, NTH, NULL, ATOM on every tree x every index in [-2S,2S] u {MIN,MAX}; INSERT (x every index), POSITION, CONTAINER, CONTAINS, MEMBER, =, CONS, LIST, DISCREPANCY on all pairs (t,u), SUBST on triples; by NAME through step; oracle = reference tree functions (depth-first point indexing) + the metamorphic equations of the statement (EXTRACT after INSERT, POSITION/EXTRACT, -1 iff no occurrence, DISCREPANCY symmetric and 0 on identical items, atoms conserved); the Item:: API (size, traverse, contains, container, equals, insert, substitute) checked directly",
-        bounds=dict(quick="trees <= 4 points (unary: 6 atoms; pairs: |t|<=4, |u|<=3 over 3 atoms)", thorough="trees <= 5 points"),
+        families=lambda tier: [fam("unary", shards=4, crumbs=True), fam("binary", shards=10, crumbs=True), fam("deep", shards=12, crumbs=True), fam("api", shards=2)],
+        rule="all code trees up to S points over a 6-atom alphabet (int 1, 2, 11, float, name, instruction; 3 atoms for pairs): SIZE, EXTRACT, CAR, CDR, LENGTH, NTH, NULL, ATOM on every tree x every index in [-2S,2S] u {MIN,MAX}; INSERT (x every index), POSITION, CONTAINER, CONTAINS, MEMBER, =, CONS, LIST, DISCREPANCY on all pairs (t,u), SUBST on triples; by NAME through step; oracle = reference tree functions (depth-first point indexing) + the metamorphic equations of the statement (EXTRACT after INSERT, POSITION/EXTRACT, -1 iff no occurrence, DISCREPANCY symmetric and 0 on identical items, atoms conserved); the Item:: API (size, traverse, contains, container, equals, insert, substitute) checked directly; (deep) all trees with 5..D points over a 2-atom alphabet x all patterns up to 3 points for POSITION/CONTAINER/CONTAINS/MEMBER and every index for EXTRACT/INSERT (index arithmetic after several nested lists)",
+        bounds=dict(quick="trees <= 4 points (unary: 6 atoms; pairs: |t|<=4, |u|<=3 over 3 atoms); deep: D=6", thorough="trees <= 5 points; deep: D=7"),
         assumptions=["atoms outside the alphabet behave like those inside; NaN atoms are not explored"],
     ),
     "C09": dict(
